@@ -402,7 +402,8 @@ def Reg (o : VecOps E ℝ) : Fn E ℝ → Prop
   | .lscal _ f => Reg o f
   | .rscal f s => s ≠ 0 ∧ Reg o f
   | .rvec f v vinv =>
-      (∀ a b, ⟪o.mul v a, b⟫ = ⟪a, o.mul v b⟫) ∧ (∀ a, o.mul v (o.mul vinv a) = a) ∧ Reg o f
+      (∀ a b, ⟪o.mul v a, b⟫ = ⟪a, o.mul v b⟫) ∧ (∀ a, o.mul v (o.mul vinv a) = a) ∧
+        (∀ a, o.mul vinv (o.mul v a) = a) ∧ Reg o f
   | .ssum f _ => Reg o f
   | .trans f _ => Reg o f
   | .qp f a _ _ _ => a = 0 ∧ Reg o f
@@ -483,8 +484,8 @@ Covers every class of the model with an explicit evaluable conjugate: L1, Indica
 Huber, L2NormSquared, Constant, IndicatorZero, QuadraticForm (linear and with operator),
 LeftScalarMult, RightScalarMult, RightVectorMult, ScalarSum, Translation, QuadraticPerturb
 (`a = 0`), BregmanDistance.  Not in this induction: InfimalConvolution (no `_call`; rule
-`conj_infconv_ineq`), SeparableSum (not in the executable model; rule `conj_separable`), and
-the equality case at `y = ∇f(x)` (proved rule by rule above, checked on trees by the oracle). -/
+`conj_infconv_ineq`), SeparableSum (not in the executable model; rule `conj_separable`).  The
+equality case at `y = ∇f(x)` on trees is `C08.conj_sound_eq`. -/
 theorem C08.conj_sound (μ : E → E → E) (cv : Builtin ℝ → E → ℝ)
     (cd : Builtin ℝ → E → Bool) (cg : Builtin ℝ → E → E)
     (hl1 : FYm (eOps μ cv cd cg) (.coord .l1) (.coord .indLinf))
@@ -613,7 +614,7 @@ theorem C08.conj_sound (μ : E → E → E) (cv : Builtin ℝ → E → ℝ)
             have h2 := this x y (by simpa [Fn.dom, eOps] using hx) (by simpa [Fn.dom, eOps] using hy)
             simpa [Fn.value, eOps] using h2
   | rvec f v vinv ih =>
-      obtain ⟨hsym, hinv, hr⟩ := hreg
+      obtain ⟨hsym, hinv, _, hr⟩ := hreg
       cases hfc : f.conj (eOps μ cv cd cg) with
       | none => simp [Fn.conj, hfc] at h
       | some g =>
@@ -842,3 +843,272 @@ theorem C08.huber_conj (γ : K) (hγ : 0 < γ) (w x y : List K) (hw : ∀ a ∈ 
               rw [mul_add]
               linarith
 end lists2
+
+/-! ### Equality at the gradient, on expression trees -/
+namespace OdlModel.C08
+/-- Fenchel–Young EQUALITY at the coded gradient: `t'(∇t(x)) < ∞` and
+`t(x) + t'(∇t(x)) = ⟨x, ∇t(x)⟩` wherever `t(x)` is finite. -/
+def FYeqm (o : VecOps E ℝ) (t t' : Fn E ℝ) : Prop :=
+  ∀ x, t.dom o x = true →
+    t'.dom o (t.grad o x) = true ∧ t.value o x + t'.value o (t.grad o x) = o.inner x (t.grad o x)
+end OdlModel.C08
+
+/-- **Equality case on expression trees**: under the same side conditions as `conj_sound`, for
+every expression that implements `gradient`, the coded conjugate evaluated at the coded
+gradient attains Fenchel–Young equality: `t(x) + t*(∇t(x)) = ⟨x, ∇t(x)⟩` (all depths, every
+real inner-product space), given it for the coordinate-wise leaves L1 and Huber. -/
+theorem C08.conj_sound_eq (μ : E → E → E) (cv : Builtin ℝ → E → ℝ)
+    (cd : Builtin ℝ → E → Bool) (cg : Builtin ℝ → E → E)
+    (hl1 : FYeqm (eOps μ cv cd cg) (.coord .l1) (.coord .indLinf))
+    (hhub : ∀ γ, FYeqm (eOps μ cv cd cg) (.coord (.huber γ))
+      (.qp (.coord .indLinf) (γ / two) false (eOps μ cv cd cg).zero 0))
+    (t t' : Fn E ℝ) (hreg : Reg (eOps μ cv cd cg) t) (hg : t.hasGrad = true)
+    (h : t.conj (eOps μ cv cd cg) = some t') :
+    FYeqm (eOps μ cv cd cg) t t' := by
+  have hsm : ∀ (a : ℝ) (z : E), (eOps μ cv cd cg).smul a z = a • z := fun _ _ => rfl
+  have hin : ∀ a b : E, (eOps μ cv cd cg).inner a b = ⟪a, b⟫ := fun _ _ => rfl
+  have hsub : ∀ a b : E, (eOps μ cv cd cg).sub a b = a - b := fun _ _ => rfl
+  have hadd : ∀ a b : E, (eOps μ cv cd cg).add a b = a + b := fun _ _ => rfl
+  have hzero : (eOps μ cv cd cg).zero = (0 : E) := rfl
+  have hisz : ∀ a : E, (eOps μ cv cd cg).isZero a = true ↔ a = 0 := by
+    intro a; simp [eOps]
+  induction t generalizing t' with
+  | coord b =>
+      cases b with
+      | l1 => simp [Fn.conj] at h; subst h; exact hl1
+      | indLinf => simp [Fn.hasGrad] at hg
+      | huber γ => simp [Fn.conj] at h; subst h; exact hhub γ
+  | l2sq =>
+      simp [Fn.conj] at h; subst h
+      intro x _
+      refine ⟨rfl, ?_⟩
+      simp only [Fn.value, Fn.grad, hsm, hin, two, real_inner_smul_left, real_inner_smul_right]
+      ring
+  | const c =>
+      simp [Fn.conj] at h; subst h
+      intro x _
+      refine ⟨by simp [Fn.dom, Fn.grad, hisz, hzero], ?_⟩
+      simp [Fn.value, Fn.grad, hin, hzero]
+  | indZero c => simp [Fn.hasGrad] at hg
+  | lin b c =>
+      simp [Fn.conj] at h; subst h
+      intro x _
+      refine ⟨by simp [Fn.dom, Fn.grad, hisz, hsub], ?_⟩
+      simp [Fn.value, Fn.grad, hin, real_inner_comm]
+  | quad A At Ainv AinvT hasB b c =>
+      obtain ⟨A', Ai', hA, hAt, hAi, hAit, hsym, hpos, hinv⟩ := hreg
+      have hisym : ∀ u v, ⟪Ai' u, v⟫ = ⟪u, Ai' v⟫ := by
+        intro u v
+        calc ⟪Ai' u, v⟫ = ⟪Ai' u, A' (Ai' v)⟫ := by rw [hinv]
+          _ = ⟪A' (Ai' u), Ai' v⟫ := (hsym _ _).symm
+          _ = ⟪u, Ai' v⟫ := by rw [hinv]
+      intro x _
+      by_cases hb : hasB = true
+      · simp [Fn.conj, hb] at h; subst h
+        refine ⟨rfl, ?_⟩
+        have key := ((C08.quadform_conj A' Ai' b c hsym hpos hinv).2 x ((2 : ℝ) • A' x + b) rfl).2.2
+        have hgr : (Fn.quad A At Ainv AinvT true b c).grad (eOps μ cv cd cg) x = (2 : ℝ) • A' x + b := by
+          simp only [Fn.grad, if_true, hadd, hA, hAt, two_smul]
+        subst hb
+        rw [hgr]
+        set y := (2 : ℝ) • A' x + b with hy
+        simp only [Fn.value, if_true, hsm, hin, hsub, hadd, hA, hAi, hAit, two]
+        have e1 : ⟪b, Ai' y⟫ = ⟪y, Ai' b⟫ := by rw [← hisym, real_inner_comm]
+        simp only [inner_sub_left, inner_sub_right, map_sub, inner_add_right,
+          real_inner_smul_right, inner_neg_right, neg_smul, one_smul, e1,
+          real_inner_comm x b] at key ⊢
+        norm_num at key ⊢
+        linarith
+      · simp [Fn.conj, hb] at h; subst h
+        refine ⟨rfl, ?_⟩
+        have key := ((C08.quadform_conj A' Ai' 0 c hsym hpos hinv).2 x ((2 : ℝ) • A' x + 0) rfl).2.2
+        have hgr : (Fn.quad A At Ainv AinvT hasB b c).grad (eOps μ cv cd cg) x = (2 : ℝ) • A' x + 0 := by
+          simp only [Fn.grad, hb, hadd, hA, hAt, two_smul, add_zero]
+          simp
+        rw [hgr]
+        set y := (2 : ℝ) • A' x + 0 with hy
+        simp only [Fn.value, hb, hsm, hin, hA, hAi, two] at key ⊢
+        simp only [sub_zero, inner_zero_left, real_inner_smul_right] at key ⊢
+        norm_num at key ⊢
+        linarith
+  | lscal s f ih =>
+      have hgf : f.hasGrad = true := by simpa [Fn.hasGrad] using hg
+      by_cases hs : s ≤ 0
+      · simp [Fn.conj, hs] at h
+      · cases hfc : f.conj (eOps μ cv cd cg) with
+        | none => simp [Fn.conj, hs, hfc] at h
+        | some g =>
+            have hs' : 0 < s := not_le.mp hs
+            have hne : s ≠ 0 := ne_of_gt hs'
+            have hfe := ih g hreg hgf hfc
+            have hk : ∀ z : E, (1 / s) • s • z = z := by
+              intro z; rw [smul_smul]; field_simp; exact one_smul _ _
+            by_cases hlin : g.isLinear = true
+            · simp [Fn.conj, hs, hfc, Fn.mulScalar, Fn.isLinear, hlin] at h
+              subst h
+              obtain ⟨hhom, hdom⟩ := C08.linear_flag_homogeneous μ cv cd cg g hlin
+              intro x hx
+              obtain ⟨_, he⟩ := hfe x (by simpa [Fn.dom] using hx)
+              refine ⟨by simpa [Fn.dom] using hdom _, ?_⟩
+              simp only [Fn.value, Fn.grad, hsm, hin, hhom, real_inner_smul_right] at he ⊢
+              have : s⁻¹ * (s * (s * g.value (eOps μ cv cd cg) (f.grad (eOps μ cv cd cg) x)))
+                  = s * g.value (eOps μ cv cd cg) (f.grad (eOps μ cv cd cg) x) := by field_simp
+              rw [this, ← he]; ring
+            · simp [Fn.conj, hs, hfc, Fn.mulScalar, Fn.isLinear, hlin] at h
+              subst h
+              intro x hx
+              obtain ⟨hd, he⟩ := hfe x (by simpa [Fn.dom] using hx)
+              refine ⟨?_, ?_⟩
+              · simp only [Fn.dom, Fn.grad, hsm]
+                rw [show s⁻¹ = 1 / s from (one_div s).symm, hk]; exact hd
+              · have he' : f.value (eOps μ cv cd cg) x + g.value (eOps μ cv cd cg)
+                    (f.grad (eOps μ cv cd cg) x) = ⟪x, f.grad (eOps μ cv cd cg) x⟫ := he
+                simp only [Fn.value, Fn.grad, hsm, hin, real_inner_smul_right]
+                rw [show s⁻¹ = 1 / s from (one_div s).symm, hk, ← he']; ring
+  | rscal f s ih =>
+      obtain ⟨hs, hr⟩ := hreg
+      have hgf : f.hasGrad = true := by simpa [Fn.hasGrad] using hg
+      cases hfc : f.conj (eOps μ cv cd cg) with
+      | none => simp [Fn.conj, hfc] at h
+      | some g =>
+          have hfe := ih g hr hgf hfc
+          have hk : ∀ z : E, (1 / s) • s • z = z := by
+            intro z; rw [smul_smul]; field_simp; exact one_smul _ _
+          by_cases hlin : g.isLinear = true
+          · simp [Fn.conj, hfc, Fn.mulScalar, hlin] at h
+            subst h
+            obtain ⟨hhom, hdom⟩ := C08.linear_flag_homogeneous μ cv cd cg g hlin
+            intro x hx
+            obtain ⟨_, he⟩ := hfe (s • x) (by simpa [Fn.dom, hsm] using hx)
+            refine ⟨by simpa [Fn.dom] using hdom _, ?_⟩
+            simp only [Fn.value, Fn.grad, hsm, hin, hhom, real_inner_smul_right,
+              real_inner_smul_left] at he ⊢
+            have : s⁻¹ * (s * g.value (eOps μ cv cd cg) (f.grad (eOps μ cv cd cg) (s • x)))
+                = g.value (eOps μ cv cd cg) (f.grad (eOps μ cv cd cg) (s • x)) := by field_simp
+            rw [this]; exact he
+          · simp [Fn.conj, hfc, Fn.mulScalar, hlin] at h
+            subst h
+            intro x hx
+            obtain ⟨hd, he⟩ := hfe (s • x) (by simpa [Fn.dom, hsm] using hx)
+            refine ⟨?_, ?_⟩
+            · simp only [Fn.dom, Fn.grad, hsm]
+              rw [show s⁻¹ = 1 / s from (one_div s).symm, hk]; exact hd
+            · simp only [Fn.value, Fn.grad, hsm, hin, real_inner_smul_right,
+                real_inner_smul_left] at he ⊢
+              rw [show s⁻¹ = 1 / s from (one_div s).symm, hk]; exact he
+  | rvec f v vinv ih =>
+      obtain ⟨hsym, hinv, hinv', hr⟩ := hreg
+      have hgf : f.hasGrad = true := by simpa [Fn.hasGrad] using hg
+      cases hfc : f.conj (eOps μ cv cd cg) with
+      | none => simp [Fn.conj, hfc] at h
+      | some g =>
+          simp [Fn.conj, hfc] at h
+          subst h
+          intro x hx
+          obtain ⟨hd, he⟩ := ih g hr hgf hfc _ (by simpa [Fn.dom] using hx)
+          refine ⟨?_, ?_⟩
+          · simp only [Fn.dom, Fn.grad]; rw [hinv']; exact hd
+          · simp only [Fn.value, Fn.grad]
+            rw [hinv', he, hin, hin, hsym]
+  | ssum f c ih =>
+      have hgf : f.hasGrad = true := by simpa [Fn.hasGrad] using hg
+      cases hfc : f.conj (eOps μ cv cd cg) with
+      | none => simp [Fn.conj, hfc] at h
+      | some g =>
+          simp [Fn.conj, hfc] at h
+          subst h
+          intro x hx
+          obtain ⟨hd, he⟩ := ih g hreg hgf hfc x (by simpa [Fn.dom] using hx)
+          have hgr : (f.ssum c).grad (eOps μ cv cd cg) x = f.grad (eOps μ cv cd cg) x := by
+            simp only [Fn.grad, hadd, hzero, add_zero]
+          rw [hgr]
+          refine ⟨by simpa [Fn.dom] using hd, ?_⟩
+          simp only [Fn.value]; linarith
+  | trans f t ih =>
+      have hgf : f.hasGrad = true := by simpa [Fn.hasGrad] using hg
+      cases hfc : f.conj (eOps μ cv cd cg) with
+      | none => simp [Fn.conj, hfc] at h
+      | some g =>
+          simp [Fn.conj, hfc] at h
+          subst h
+          intro x hx
+          obtain ⟨hd, he⟩ := ih g hreg hgf hfc (x - t) (by simpa [Fn.dom, hsub] using hx)
+          refine ⟨by simpa [Fn.dom, Fn.grad, hsub] using hd, ?_⟩
+          simp only [Fn.value, Fn.grad, hsub, hin] at he ⊢
+          rw [inner_sub_left] at he
+          have := real_inner_comm (f.grad (eOps μ cv cd cg) (x - t)) t
+          linarith
+  | qp f a hasU u c ih =>
+      obtain ⟨ha, hr⟩ := hreg
+      subst ha
+      have hgf : f.hasGrad = true := by simpa [Fn.hasGrad] using hg
+      cases hfc : f.conj (eOps μ cv cd cg) with
+      | none => simp [Fn.conj, hfc] at h
+      | some g =>
+          have hgr : ∀ x, (f.qp 0 hasU u c).grad (eOps μ cv cd cg) x
+              = f.grad (eOps μ cv cd cg) x + u := by
+            intro x; simp only [Fn.grad, hadd, hsm, two, mul_zero, zero_smul, add_zero]
+          by_cases hc : c = 0
+          · simp [Fn.conj, hfc, hc] at h
+            subst h
+            intro x hx
+            obtain ⟨hd, he⟩ := ih g hr hgf hfc x (by simpa [Fn.dom] using hx)
+            rw [hgr]
+            refine ⟨by simpa [Fn.dom, hsub] using hd, ?_⟩
+            simp only [Fn.value, hsub, hin, add_sub_cancel_right, inner_add_right, hc] at he ⊢
+            linarith
+          · simp [Fn.conj, hfc, hc] at h
+            subst h
+            intro x hx
+            obtain ⟨hd, he⟩ := ih g hr hgf hfc x (by simpa [Fn.dom] using hx)
+            rw [hgr]
+            refine ⟨by simpa [Fn.dom, hsub] using hd, ?_⟩
+            simp only [Fn.value, hsub, hin, add_sub_cancel_right, inner_add_right] at he ⊢
+            linarith
+  | breg f p q ih =>
+      have hgf : f.hasGrad = true := by simpa [Fn.hasGrad] using hg
+      cases hfc : f.conj (eOps μ cv cd cg) with
+      | none => simp [Fn.conj, hfc] at h
+      | some g =>
+          have hgr : ∀ x, (f.breg p q).grad (eOps μ cv cd cg) x - (eOps μ cv cd cg).smul (-1) q
+              = f.grad (eOps μ cv cd cg) x := by
+            intro x; simp only [Fn.grad, hsub, hsm, neg_smul, one_smul, sub_neg_eq_add, sub_add_cancel]
+          by_cases hc : -(f.value (eOps μ cv cd cg) p) + (eOps μ cv cd cg).inner q p = 0
+          · simp only [Fn.conj, hfc, hc, if_true] at h
+            simp at h
+            subst h
+            intro x hx
+            obtain ⟨hd, he⟩ := ih g hreg hgf hfc x (by simpa [Fn.dom] using hx)
+            refine ⟨by simp only [Fn.dom, hsub]; rw [hgr]; exact hd, ?_⟩
+            simp only [Fn.value, hsub, hc]
+            rw [hgr]
+            simp only [Fn.grad, hsub, hsm, hin, inner_sub_right, real_inner_smul_right] at he ⊢
+            linarith
+          · simp only [Fn.conj, hfc, hc, if_false] at h
+            simp at h
+            subst h
+            intro x hx
+            obtain ⟨hd, he⟩ := ih g hreg hgf hfc x (by simpa [Fn.dom] using hx)
+            refine ⟨by simp only [Fn.dom, hsub]; rw [hgr]; exact hd, ?_⟩
+            simp only [Fn.value, hsub]
+            rw [hgr]
+            simp only [Fn.grad, hsub, hsm, hin, inner_sub_right, real_inner_smul_right] at he ⊢
+            linarith
+  | sum f g _ _ => exact hreg.elim
+  | prod f g _ _ => exact hreg.elim
+  | quot f g _ _ => exact hreg.elim
+  | comp f op dAdj _ => exact hreg.elim
+  | infconv f g _ _ => exact hreg.elim
+  | menv f P σ _ => exact hreg.elim
+  | dconj f _ => exact hreg.elim
+
+/-- Non-vacuity: `f(x) = 2‖x − 3‖²` on `E = ℝ` attains equality at its coded gradient. -/
+example : ∀ t', (Fn.trans (.lscal 2 .l2sq) 3 : Fn ℝ ℝ).conj
+        (eOps (· * ·) (fun _ _ => 0) (fun _ _ => false) (fun _ _ => 0)) = some t' →
+      FYeqm (eOps (· * ·) (fun _ _ => 0) (fun _ _ => false) (fun _ _ => 0))
+        (Fn.trans (.lscal 2 .l2sq) 3) t' := by
+  intro t' h
+  refine C08.conj_sound_eq (E := ℝ) _ _ _ _ ?_ ?_ _ t' ?_ rfl h
+  · intro x hx; simp [Fn.dom, eOps] at hx
+  · intro γ x hx; simp [Fn.dom, eOps] at hx
+  · trivial
